@@ -77,6 +77,10 @@ class HttpRelayClient(RelayPoolClient):
                 raise
             except Exception as exc:
                 self._fail_request(result, 'HTTP request failed: '+str(exc))
+            except BaseException:
+                # killed (RelayPool.kill()) while holding a request
+                self._fail_request(result, 'HTTP relay client was shut down')
+                raise
         else:
             if self.conn:
                 self.conn.close()
